@@ -470,6 +470,27 @@ pub fn valid_model(w: &MWorkflow, all_models: &[String]) -> bool {
                 ok = false;
             }
         }
+        // catches / timeout rules of one task have distinct keys
+        let mut on: Vec<&Option<String>> = s.catches.iter().map(|c| &c.on).collect();
+        on.sort();
+        on.dedup();
+        let mut t: Vec<&String> = s.timeouts.iter().map(|c| &c.on).collect();
+        t.sort();
+        t.dedup();
+        if on.len() != s.catches.len() || t.len() != s.timeouts.len() {
+            ok = false;
+        }
+    });
+    w.visit_acts(&mut |a| {
+        let mut on: Vec<&Option<String>> = a.catches.iter().map(|c| &c.on).collect();
+        on.sort();
+        on.dedup();
+        let mut t: Vec<&String> = a.timeouts.iter().map(|c| &c.on).collect();
+        t.sort();
+        t.dedup();
+        if on.len() != a.catches.len() || t.len() != a.timeouts.len() {
+            ok = false;
+        }
     });
     w.visit_acts(&mut |a| {
         if !a.id.is_empty() {
